@@ -296,6 +296,15 @@ def run(sc, callbacks=(), model=None, therm=None, temperature_entry="setter", ex
             model.solve(dur, solverType=tap, minDtFrac=sc.get("minDtFrac", 1e-8), maxDtFrac=sc.get("maxDtFrac", 1))
             completed_calls += 1
             rows.append(len(model.pData.time))
+        except ValueError as e:
+            # kawin refuses an energy ratio gbEnergy/(2 gamma) above the limit of the site type; the scenario's own ratio is below it
+            # for every phase, so a refusal means the model is not using the energies it was configured with
+            from .scen import KMAX
+            from .core import KawinRefusal
+            gbe = sc.get("gbe")
+            if "energy ratio is too large" in str(e) and gbe is not None and all(gbe / (2 * p["gamma"]) < 0.999 * KMAX[p["site"]] for p in sc["phases"] if p.get("site") in KMAX):
+                raise KawinRefusal("admissible_energy_ratio_refused", "grain-boundary energy %r with interfacial energies %r (ratios %r, all admissible) refused by the model: %s" % (gbe, [p["gamma"] for p in sc["phases"]], [gbe / (2 * p["gamma"]) for p in sc["phases"]], str(e)[:160]))
+            raise
         except StepCap:
             truncated = True
             rows.append(len(model.pData.time))
